@@ -104,6 +104,10 @@ func (ex *Exec) staticCall(st *State, fr *Frame, callee *ssa.Function, binds []*
 		// closures without contract are inlined
 		cs = &FuncSpec{Key: key, Inline: true, Loops: map[int]*LoopSpec{}, Opaque: map[string]bool{}}
 	}
+	if cs == nil && strings.HasPrefix(callee.Name(), "init#") && fr.fn.Name() == "init" && fr.fn.Synthetic != "" {
+		// a declared `func init()` is part of the package initialiser
+		cs = &FuncSpec{Key: key, Inline: true, Loops: map[int]*LoopSpec{}, Opaque: map[string]bool{}}
+	}
 	if cexMode && (cs == nil || !cs.Assumed) && len(body.Blocks) > 0 && strings.HasPrefix(funcPkgPath(body), modulePath) {
 		// counterexample search: use the callee's body instead of its contract
 		ics := &FuncSpec{Key: key, Inline: true, Loops: map[int]*LoopSpec{}, Opaque: map[string]bool{}}
@@ -242,7 +246,28 @@ func (ex *Exec) dynamicCall(st *State, fr *Frame, call *ssa.CallCommon, fnv *Val
 	ft := ex.env.resolve(call.Value.Type())
 	n, ok := types.Unalias(ft).(*types.Named)
 	if !ok {
-		panic(oos("call of function value of unnamed type " + ft.String()))
+		// unnamed function type: contract `func (f func(..)..) call(..)` declared in the package of the caller
+		sig, isSig := ft.Underlying().(*types.Signature)
+		var pk *types.Package
+		if fr.fn.Pkg != nil {
+			pk = fr.fn.Pkg.Pkg
+		}
+		if !isSig || pk == nil {
+			panic(oos("call of function value of unnamed type " + ft.String()))
+		}
+		key := pk.Path() + ".(" + types.TypeString(ft, func(p *types.Package) string { return p.Name() }) + ").call"
+		cs := ex.P.Specs.Funcs[key]
+		if cs == nil {
+			panic(oos("function-typed call " + key + " has no contract"))
+		}
+		ex.trusted["assumed callback contract: "+shortKey(key)] = true
+		if fnv == nil {
+			fnv = &Val{T: IntLit(0)}
+		}
+		ex.nilCheck(st, fnv, instr, "call of nil function")
+		all := append([]*Val{fnv}, args...)
+		k(st, ex.callContractSig(st, fr, cs, sig, ft, all, instr, pk))
+		return
 	}
 	pkg := ""
 	if n.Obj().Pkg() != nil {
@@ -332,6 +357,7 @@ func (ex *Exec) callContractSig(st *State, fr *Frame, cs *FuncSpec, sig *types.S
 			break
 		}
 		ctx.names[name] = &SV{V: args[i+j], T: sig.Params().At(j).Type()}
+		ctx.names[name+"0"] = ctx.names[name] // entry value (parameters are mutable in the body)
 	}
 	short := shortKey(cs.Key)
 	ord := ex.siteOrd[instr]
@@ -343,6 +369,19 @@ func (ex *Exec) callContractSig(st *State, fr *Frame, cs *FuncSpec, sig *types.S
 	}
 	if cs.Panics != nil && cs.Panics.appliesTo(ex.prop) {
 		ex.check(st, "pre", fmt.Sprintf("%s/pre:%s#%d.nopanic", ex.fnName(), short, ord), Not(ctx.EvalBool(cs.Panics.Expr)), "call of "+short+" must not panic: "+cs.Panics.Src, ex.pos(instr))
+	}
+	if cs.UnderLock != "" && !ex.preOnly && ex.fn != nil && ex.fn.Name() == "init" && ex.fn.Synthetic != "" {
+		ex.trusted["package initialisation runs before any other goroutine can reach the package state"] = true
+	} else if cs.UnderLock != "" && !ex.preOnly {
+		if !st.held[cs.UnderLock] {
+			ex.check(st, "lock-held", fmt.Sprintf("%s/lock-held:%s#%d", ex.fnName(), short, ord), TFalse, "call of "+short+" without holding "+cs.UnderLock, ex.pos(instr))
+		} else {
+			ex.check(st, "lock-held", fmt.Sprintf("%s/lock-held:%s#%d", ex.fnName(), short, ord), TTrue, short+" called under "+cs.UnderLock, ex.pos(instr))
+		}
+	}
+	if ex.preOnly {
+		// `go f(..)`: only the precondition is checked here; the spawned call runs as another thread
+		return nil
 	}
 	// ghost universals of the callee become fresh unknowns that the caller cannot constrain:
 	// sound only for clauses of the form  P(g) ==> Q(g); we instantiate them by quantifying.
@@ -544,6 +583,16 @@ func (ex *Exec) evalModTarget(ctx *SpecCtx, c *Clause) []*modTarget {
 			ln := ctx.term(ctx.eval(x.Args[2]), ex.env.IntS())
 			return []*modTarget{{kind: "elems", typ: types.Typ[types.Uint8], sl: &SliceV{Arr: ex.valTerm(a.V), Off: off, Len: ln, Cap: ln}, src: c.Src}}
 		}
+		if id, ok := x.Fun.(*ast.Ident); ok && id.Name == "spare" && len(x.Args) == 1 {
+			// spare(s): the spare capacity s[len(s):cap(s)] of a slice (written by an in-place append)
+			base := ctx.eval(x.Args[0])
+			tt, ok := ex.env.resolve(base.T).Underlying().(*types.Slice)
+			if !ok || base.V.Sl == nil {
+				ctx.fail("spare(%s): not a slice", types.ExprString(x.Args[0]))
+			}
+			sl := base.V.Sl
+			return []*modTarget{{kind: "elems", typ: tt.Elem(), sl: &SliceV{Arr: sl.Arr, Off: Add(sl.Off, sl.Len), Len: Sub(sl.Cap, sl.Len), Cap: Sub(sl.Cap, sl.Len)}, src: c.Src}}
+		}
 		if id, ok := x.Fun.(*ast.Ident); ok && id.Name == "global" {
 			// global(pkgvar)
 			sv := ctx.eval(x.Args[0])
@@ -656,6 +705,12 @@ func (ex *Exec) checkFrame(st *State, site string) {
 							excl = append(excl, Not(t.cond.Subst(map[string]*Term{t.bound.Op: x})))
 						}
 					}
+				}
+			}
+			// typed heap: the field array of struct T is only meaningful at objects of dynamic type *T
+			if parts := strings.SplitN(strings.TrimPrefix(key, "F "), " ", 2); len(parts) == 2 {
+				if id, ok := typeTags["*"+parts[0]]; ok {
+					excl = append(excl, Eq(ex.dtype(x), IntLit(id)))
 				}
 			}
 			goal := Forall([]*Term{x}, Implies(And(append([]*Term{isOld}, excl...)...), Eq(Select(cur, x), Select(init, x))))
@@ -1863,12 +1918,34 @@ func (ex *Exec) monitorEnter(st *State, fr *Frame, name string, recv *Val, instr
 	}
 	st.locks[name]++
 	if st.locks[name] == 1 && st.locks["*cut*"] == 0 {
+		// first acquisition: the state is the one the function was entered with; the monitor
+		// invariant holds whenever the lock is free
+		if m.Inv != nil {
+			c := ex.frameCtx(st, fr)
+			c.names[m.RecvName] = &SV{V: scalar(self), T: types.NewPointer(base)}
+			st.assume(c.EvalBool(m.Inv.Expr))
+		}
 		ex.monitorAssuming(st, fr, m, self, base)
 		st.lockSnaps = append(st.lockSnaps, st.snapshot())
 		return
 	}
 	stru := ex.env.resolve(base).Underlying().(*types.Struct)
 	for _, g := range m.Guards {
+		if strings.HasPrefix(g, "[]") {
+			// element storage of every slice/array of that element type
+			et := strings.TrimPrefix(g, "[]")
+			for key, cur := range st.heap {
+				if strings.HasPrefix(key, "E ") && strings.Contains(key, et+" ") {
+					st.heap[key] = ex.fresh("hv_mon", cur.Sort)
+				}
+			}
+			for key, cur := range ex.initHeap {
+				if _, done := st.heap[key]; !done && strings.HasPrefix(key, "E ") && strings.Contains(key, et+" ") {
+					st.heap[key] = ex.fresh("hv_mon", cur.Sort)
+				}
+			}
+			continue
+		}
 		if strings.Contains(g, ".") {
 			// every object of Type: field f
 			parts := strings.SplitN(g, ".", 2)
